@@ -1,7 +1,7 @@
 (* C09 — reference statistics equal direct computation and are additive.
    Property theorems only: each is closed by `exact <lemma>` (lemmas in Proofs/StatsP.v). *)
 From Coq Require Import ZArith List Bool Arith Permutation.
-From CTM Require Import Base.Sx Base.SortX Model.Tree Model.Stats Proofs.TreeP Proofs.StatsP Proofs.StatsTruncP.
+From CTM Require Import Base.Sx Base.SortX Model.Tree Model.Stats Proofs.TreeP Proofs.StatsP Proofs.StatsTruncP Proofs.StatsMergeP.
 Import ListNotations.
 Open Scope Z_scope.
 
@@ -344,4 +344,70 @@ Proof.
   eexists. eexists. split; [vm_compute; reflexivity|].
   split; [vm_compute; reflexivity|]. split; [vm_compute; reflexivity|].
   split; vm_compute; reflexivity.
+Qed.
+
+(* ------------------------------------------------------------------ *)
+(* merge_precompute_files, further properties (Proofs/StatsMergeP.v).
+     has_all_rows f := every leaf of f's taxonomy has a row in f's cluster_to_row (what the
+                       writer produces: c09_rows_addressed_by_name; otherwise run_leaf_census raises)
+     no_ties files  := two rows of the same cluster (in any two files) with the same number of
+                       cells are the same row *)
+
+(* idempotence: merging a file with itself (listed once or several times) returns it unchanged;
+   merging it with a copy of itself stored under another path leaves the table unchanged *)
+Theorem c09_merge_idempotent : forall f, has_all_rows f ->
+  (forall n, merge_precompute (repeat f (S n)) = Ok (f, p_tab f)) /\
+  (forall f', p_path f' <> p_path f -> p_tree f' = p_tree f -> p_c2r f' = p_c2r f ->
+              p_cols f' = p_cols f -> p_tab f' = p_tab f ->
+     exists most, (most = f \/ most = f') /\
+       merge_precompute [f; f'] = Ok (most, p_tab f) /\ merge_precompute [f'; f] = Ok (most, p_tab f)).
+Proof. exact merge_idempotent. Qed.
+Print Assumptions c09_merge_idempotent.
+
+(* the order of the input list is irrelevant, ties or not (the code sorts the paths first) *)
+Theorem c09_merge_order_irrelevant : forall files files',
+  NoDup (map p_path files) -> Permutation files files' ->
+  merge_precompute files = merge_precompute files'.
+Proof. exact merge_order_irrelevant. Qed.
+Print Assumptions c09_merge_order_irrelevant.
+
+(* without ties the visiting order - i.e. the file names, which fix it - is irrelevant too: the
+   same tables stored under any other names, listed in any order, merge to the same table *)
+Theorem c09_merge_order_irrelevant_without_ties : forall files files' most most' T T',
+  NoDup (map p_path files) -> NoDup (map p_path files') ->
+  Permutation (map p_tab files) (map p_tab files') ->
+  no_ties files ->
+  merge_precompute files = Ok (most, T) -> merge_precompute files' = Ok (most', T') ->
+  T = T'.
+Proof. exact merge_names_irrelevant_without_ties. Qed.
+Print Assumptions c09_merge_order_irrelevant_without_ties.
+
+(* ... and the hypothesis is needed: with a tie, swapping the names of two files changes the
+   merged row (the tie rule, c09_merge_tie_rule) *)
+Theorem c09_merge_names_matter_with_ties :
+  merge_precompute [tie_f 1 7; tie_f 2 9] = Ok (tie_f 1 7, [mk_summary 5 [7] [7] [1] [1] [1]]) /\
+  merge_precompute [tie_f 2 7; tie_f 1 9] = Ok (tie_f 1 9, [mk_summary 5 [9] [9] [1] [1] [1]]).
+Proof. exact merge_names_matter_with_ties. Qed.
+Print Assumptions c09_merge_names_matter_with_ties.
+
+Example c09_merge_props_nonvacuous :
+  has_all_rows (c09_pf 3 [5; 1]) /\
+  no_ties [c09_pf 3 [5; 1]; c09_pf 1 [2; 7]; c09_pf 2 [4; 6]] /\
+  Permutation (map p_tab [c09_pf 3 [5; 1]; c09_pf 1 [2; 7]; c09_pf 2 [4; 6]])
+              (map p_tab [c09_pf 8 [2; 7]; c09_pf 9 [5; 1]; c09_pf 4 [4; 6]]) /\
+  (exists most, merge_precompute [c09_pf 3 [5; 1]; c09_pf 1 [2; 7]; c09_pf 2 [4; 6]] = Ok (most, p_tab (c09_pf 0 [5; 7]))) /\
+  (exists most, merge_precompute [c09_pf 8 [2; 7]; c09_pf 9 [5; 1]; c09_pf 4 [4; 6]] = Ok (most, p_tab (c09_pf 0 [5; 7]))).
+Proof.
+  split.
+  { intros leaf Hl. cbn in Hl. destruct Hl as [<-|[<-|[]]]; eexists; vm_compute; reflexivity. }
+  split.
+  { intros f g r s s' Hf Hg Hs Hs' En.
+    assert (G : forall h, In h [c09_pf 3 [5; 1]; c09_pf 1 [2; 7]; c09_pf 2 [4; 6]] -> forall u,
+              nth_error (p_tab h) r = Some u -> u = mk_summary (s_n u) [s_n u] [s_n u] [s_n u] [0] [s_n u]).
+    { intros h Hh u Hu. cbn in Hh. destruct Hh as [<-|[<-|[<-|[]]]]; destruct r as [|[|r]]; cbn in Hu;
+        try (destruct r; discriminate Hu); inversion Hu; reflexivity. }
+    rewrite (G f Hf s Hs), (G g Hg s' Hs'), En. reflexivity. }
+  split.
+  { cbn [map]. apply perm_swap. }
+  split; eexists; vm_compute; reflexivity.
 Qed.
